@@ -48,6 +48,10 @@ noncomputable instance instNumReal : Num ℝ where
 @[simp] theorem two_real : (Num.two : ℝ) = 2 := by simp [Num.two, Num.ofInt]
 @[simp] theorem half_real : (Num.half : ℝ) = 1 / 2 := rfl
 @[simp] theorem ofInt_real (n : ℤ) : (Num.ofInt n : ℝ) = (n : ℝ) := rfl
+@[simp] theorem pow_real (a p : ℝ) : Num.pow a p = a ^ p := rfl
+@[simp] theorem sqrt_real (a : ℝ) : Num.sqrt a = Real.sqrt a := rfl
+@[simp] theorem sin_real (a : ℝ) : Num.sin a = Real.sin a := rfl
+@[simp] theorem cos_real (a : ℝ) : Num.cos a = Real.cos a := rfl
 @[simp] theorem lt_real (a b : ℝ) : (Num.lt a b = true) ↔ a < b := by simp [Num.lt]
 @[simp] theorem nz_real (a : ℝ) : (Num.nz a = true) ↔ a ≠ 0 := by
   simp only [Num.nz, Bool.or_eq_true, lt_real, zero_real]
@@ -129,7 +133,6 @@ theorem hasDerivAt_atan2R {fy fx : ℝ → ℝ} {dy dx t : ℝ}
       exact ne_of_gt (by nlinarith [mul_self_nonneg (fy t)])
     simp only [Pi.div_apply]
     field_simp
-    ring
   · rcases lt_or_gt_of_ne hne with hneg | hposy
     · have hev : (fun s => atan2R (fy s) (fx s)) =ᶠ[nhds t]
           fun s => -(Real.pi / 2) - Real.arctan (fx s / fy s) := by
